@@ -467,6 +467,35 @@ fn unit_c16(w: &mut W, call: Call, data: &[u8]) {
                 }
             }
             let _ = cap;
+            // the message parse vs parse_headers on the message's OWN header block (the reverse
+            // direction of the Hdr branch below, with whatever start line the stream produced):
+            // the block starts behind the first LF that follows the leading empty lines
+            if let Some(off) = header_block_offset(&b) {
+                let want_st = match d.st {
+                    St::Complete(n) if n >= off => Some(St::Complete(n - off)),
+                    St::Err(k) if matches!(k, ErrK::HeaderName | ErrK::HeaderValue | ErrK::TooManyHeaders) => Some(d.st),
+                    _ => None,
+                };
+                if let Some(want_st) = want_st {
+                    let ch = Call { entry: Entry::H, cfg: 0, ..call };
+                    let block = b[off..].to_vec();
+                    let (h, _) = w.obs(ch, &block, Place::End);
+                    w.check_panic(&h, ch, Place::End, &block);
+                    w.st.count("message_vs_own_header_block", 1);
+                    let sh = off as u32;
+                    let shift = |l: Loc| match l {
+                        Loc::In(o_, l_) => Loc::In(o_ + sh, l_),
+                        x => x.canon(),
+                    };
+                    let got_h: Vec<(Loc, Loc)> = h.res.headers.iter().map(|(n, v)| (shift(*n), shift(*v))).collect();
+                    let want_h: Vec<(Loc, Loc)> = d.headers.iter().map(|(n, v)| (n.canon(), v.canon())).collect();
+                    if h.res.st != want_st || (want_st.is_complete() && want_h != got_h) {
+                        let dd = format!("{} (default config): {} | parse_headers on its header block (offset {}): {}", with_cfg[0].name(), d.show(&b), off, h.res.show(&block));
+                        w.viol("parse_headers_disagrees_with_message_parse", dd, Call { entry: with_cfg[0], cfg: 0, ..call }, Place::End, data);
+                        return;
+                    }
+                }
+            }
             // the same on a REUSED value: after an identical first call (Partial, fields set,
             // array restored), the entry points must still agree on status and on every field
             if w.tier == Tier::Tiny && w.rot(data) % 4 != 0 {
@@ -557,6 +586,14 @@ fn unit_c16(w: &mut W, call: Call, data: &[u8]) {
     if w.st.want_sample() && w.st.evaluations % 811 == 2 {
         w.st.sample(J_note(call, data, "all entry points agree"));
     }
+}
+
+/// Offset of the header block of a request/response buffer: behind the first LF that follows
+/// the leading CR/LF bytes (neither a request line nor a status line can contain an LF).
+fn header_block_offset(b: &[u8]) -> Option<usize> {
+    let start = b.iter().position(|&c| c != b'\r' && c != b'\n')?;
+    let lf = b[start..].iter().position(|&c| c == b'\n')?;
+    Some(start + lf + 1)
 }
 
 #[allow(non_snake_case)]
